@@ -101,13 +101,16 @@ def run(ctx):
     # of the strip stream's short-write rules only W1 (the state replayed matches the bytes reported as consumed) belongs to this
     # property; the count rules (W3) are C06's
     import core
-    w1 = core.Filtered(rep, lambda rule, anchor, instance: rule == "W1")
+    # (... and the vectored entry point hands over one of the caller's buffers through `write`, so the count it returns stands
+    # for a prefix of what the caller offered: a sum over several partly written buffers makes a retrying caller lose and repeat text)
+    w1 = core.Filtered(rep, lambda rule, anchor, instance: rule == "W1" or (rule == "W3" and instance == "forwards-one-buffer"))
     rep.guarded("W1", "anstream::strip::write", lambda: stripstream.rule_W1_W3(facts, w1))
     # ... and only if no run of visible text is dropped on the way: a piece the inner writer refused must end the call with its error
     # (an Err arm that `continue`s to the next piece loses the text and still reports the buffer as written)
     w4 = core.Filtered(rep, lambda rule, anchor, instance: rule == "W4" and instance == "write:Err-arm-leaves")
     rep.guarded("W4", "anstream::strip::write", lambda: stripstream.rule_W2(facts, w4))
-    for r, n in (("table", 16), ("keep", 17), ("S1", 7), ("S2", 8), ("S3", 3), ("S4", 3), ("S5", 12), ("S6", 5), ("between-slices", 1), ("reach", 18), ("W1", 4), ("W4", 1)):
+    rep.guarded("decoder", "anstream::adapter::strip::Utf8Parser::add", lambda: rule_decoder(facts, rep))
+    for r, n in (("decoder", 3), ("table", 16), ("keep", 17), ("S1", 7), ("S2", 8), ("S3", 3), ("S4", 3), ("S5", 12), ("S6", 5), ("between-slices", 1), ("reach", 18), ("W1", 4), ("W3", 1), ("W4", 1)):
         rep.floor(r, n)
 
 
@@ -232,3 +235,90 @@ def rule_reach(facts, rep):
                   f"the per-chunk iterator holds &mut self.{{{','.join(fields)}}} (no copy of the carried state)", loc(b))
     # the strip stream hands the inner writer only pieces yielded by StripBytes::strip_next, on every path
     stripstream.rule_through(facts, rep, "reach")
+
+
+def rule_decoder(facts, rep):
+    """The byte stripper leaves its mid-character state when `Utf8Parser::add` says the decoder is back at a character boundary —
+    and utf8parse is back there after a code point *and* after a rejected sequence. The receiver's two callbacks store something
+    into the slot `add` hands them; `add`'s result, evaluated on each stored value, must be true for both, and false for the value
+    the slot starts with (no callback: still inside a character)."""
+    import abseval
+    AD = "anstream::adapter::strip::"
+    a = facts.body("anstream", AD + "Utf8Parser::add")
+    rep.fn(a["path"])
+    st = hir.stmts_of(a["hir"])
+    adv = [n for n in hir.walk(a["hir"]) if hir.is_call(n, "utf8parse::Parser::advance")]
+    tail = st[-1] if st else None
+    if len(adv) != 1 or tail is None:
+        raise Unrecognised("Utf8Parser::add does not advance the decoder exactly once")
+    recv = hir.peel(adv[0]["args"][1])
+    recv_let = next((x for x in st if x.get("k") == "let" and x["pat"].get("k") == "pbind" and x["pat"].get("id") == recv.get("id") and "init" in x), None)
+    if recv.get("k") != "local" or recv_let is None:
+        raise Unrecognised("the receiver handed to the decoder is not a local built in add()")
+    rinit = hir.simp(recv_let["init"])
+    ctor_arg = hir.peel(rinit["args"][0]) if (rinit.get("k") == "call" and rinit.get("ctor") and len(rinit["args"]) == 1) else None
+    by_ref = ctor_arg is not None and ctor_arg.get("k") == "local" and hir.simp(rinit["args"][0]).get("k") == "ref"
+    ev0 = abseval.Evaluator(facts, "anstream", {}, inline_crates=("anstream",))
+    if by_ref:
+        # the receiver borrows a slot of add(): callbacks store through `*self.0`
+        slot_let = next((x for x in st if x.get("k") == "let" and x["pat"].get("k") == "pbind" and x["pat"].get("id") == ctor_arg.get("id") and "init" in x), None)
+        if slot_let is None:
+            raise Unrecognised("the slot the receiver borrows is not a local of add()")
+        v0 = ev0.ev(slot_let["init"], abseval.Env())
+        slot_name, store_prefix = ctor_arg["name"], "self.0"
+
+        def result(value):
+            env = abseval.Env()
+            env[slot_name] = value
+            return _eval(facts, tail, env)
+
+        def after(stored, field):
+            return stored
+    else:
+        # the receiver owns its state: callbacks store into `self.<field>`, add() reads the receiver afterwards
+        v0 = ev0.ev(recv_let["init"], abseval.Env())
+        if v0[0] != "rec":
+            raise Unrecognised(f"the receiver value {str(v0)[:60]} is not a record")
+        store_prefix = "self."
+
+        def result(value):
+            env = abseval.Env()
+            env[recv["name"]] = value
+            return _eval(facts, tail, env)
+
+        def after(stored, field):
+            return ("rec", dict(v0[1], **{field: stored}))
+    rep.check(result(v0) == ("bool", False), "decoder", a["path"], "no-callback→still-inside-a-character", f"add() with no callback gives {result(v0)}", loc(a))
+    recv_ty = str(recv_let["pat"].get("ty") or rinit.get("ty") or "")
+    for cb, arg in (("codepoint", [("sym", "c")]), ("invalid_sequence", [])):
+        cands = [b_ for b_ in facts.bodies("anstream") if b_["path"].startswith("<" + AD + "VtUtf8Receiver") and b_["path"].endswith("utf8parse::Receiver>::" + cb)]
+        if len(cands) != 1:
+            raise AnchorMissing(f"the receiver's {cb} callback")
+        b = cands[0]
+        rep.fn(b["path"])
+        stores = [n for n in hir.walk(b["hir"]) if n.get("k") in ("assign",) and (hir.place_str(n["l"]) or "").lstrip("*(").startswith(store_prefix)]
+        why, ok = "", False
+        if len(stores) == 1 and not [n for n in hir.walk(b["hir"]) if n.get("k") in ("if", "match", "ret")]:
+            env = abseval.Env()
+            for p_, v_ in zip(b["params"][1:], arg):
+                if p_.get("k") == "pbind":
+                    env[p_["name"]] = v_
+            try:
+                stored = abseval.Evaluator(facts, "anstream", {}).ev(stores[0]["r"], env)
+                field = (hir.place_str(stores[0]["l"]) or "").lstrip("*(").rstrip(")").split(".", 1)[1]
+                r = result(after(stored, field))
+                ok, why = r == ("bool", True), f"stores {stored}; add() then gives {r}"
+            except Unrecognised as ex:
+                why = f"not evaluable: {ex}"
+        else:
+            why = f"{len(stores)} stores into the receiver's state"
+        rep.check(ok, "decoder", b["path"], f"{cb}→back-at-a-boundary",
+                  f"after `{cb}` the decoder is at a character boundary and add() must say so (else the stripper keeps the next byte unclassified): {why}", loc(b))
+
+
+def _eval(facts, e, env):
+    import abseval
+    try:
+        return abseval.Evaluator(facts, "anstream", {}).ev(e, env)
+    except abseval.Return as rt:
+        return rt.v
